@@ -343,9 +343,11 @@ open PgFdr.C12 in
 /-- the values `o` of one written row are the recomputation from the precursor list `quants` (the identified
     precursors of the row's group), the experiment list `exps`, `S` SILAC channels, the PEP cutoff `c`, the iBAQ
     peptide numbers `ibaq` and the row's protein list `ids` — literally the right-hand sides of `counts_recompute`,
-    `idtype_recompute`, `intensity_recompute`, `total_is_sum_of_experiments`, `ibaq_def`, `evidence_ids_sorted_exact` -/
-def ColumnsRecomputed (exps : List String) (S : Nat) (c : Rat) (ibaq : List (String × Nat)) (ids : List String)
-    (quants : List Row) (o : GroupOut) : Prop :=
+    `idtype_recompute`, `intensity_recompute`, `total_is_sum_of_experiments`, `ibaq_def`, `evidence_ids_sorted_exact`,
+    `tmt_recompute` (`T` = the run's `num_tmt_channels`).  The sequence-coverage cells are not part of `GroupOut`;
+    their recomputation is `coverageCols_eq` below. -/
+def ColumnsRecomputed (exps : List String) (S : Nat) (T : Int) (c : Rat) (ibaq : List (String × Nat))
+    (ids : List String) (quants : List Row) (o : GroupOut) : Prop :=
   o.ids = ids ∧ o.quants = quants ∧
   -- unique peptide counts: combined, per experiment
   o.counts.getD 0 0 = ((quants.filter (used c)).map (·.peptide)).toFinset.card ∧
@@ -372,6 +374,104 @@ def ColumnsRecomputed (exps : List String) (S : Nat) (c : Rat) (ibaq : List (Str
   o.ibaq = o.intens.map (fun x => x / ((max 1 (o.nPeps.headD 0) : Nat) : Rat)) ∧
   -- evidence ids: ascending, exactly the ids of the used precursors
   o.evidenceIds.Pairwise (· ≤ ·) ∧
-  o.evidenceIds.Perm ((quants.filter (fun q => isMbr q.pep || leCut q.pep c)).map (·.id))
+  o.evidenceIds.Perm ((quants.filter (fun q => isMbr q.pep || leCut q.pep c)).map (·.id)) ∧
+  -- reporter (TMT) cells: none without reporter channels; otherwise `3*T` per experiment, cell `e*(3T)+k` = the sum of
+  -- the `k`-th reporter column over the used precursors of experiment position `e` (right-hand side of `tmt_recompute`)
+  (T ≤ 0 → o.tmt = []) ∧
+  (∀ e k, e < exps.length → k < 3 * T.toNat →
+    o.tmt.getD (e * (3 * T.toNat) + k) 0 =
+      ((quants.filter (fun q => (isMbr q.pep || leCut q.pep c) && (expIdx exps q.experiment == some e))).map
+        (fun q => q.tmt.getD k 0)).sum)
+
+/-! ### sequence coverage in closed form -/
+
+/-- position `i` of the sequence `seq` is marked by the (stripped) peptide `pep` -/
+def covers (seq : List Char) (pep : String) (i : Nat) : Bool :=
+  match findSub pep.toList seq with
+  | some p => decide (p ≤ i) && decide (i < p + pep.toList.length)
+  | none => decide (seq.length ≤ i + 1) && decide (i + 1 < pep.toList.length)
+
+def coveredFraction (seq : List Char) (peps : List String) : Rat :=
+  covRatio ((List.range seq.length).map (fun i => peps.any (fun p => covers seq p i)))
+
+theorem mapIdx_id (cov : List Bool) : cov.mapIdx (fun _ b => b) = cov := by
+  apply List.ext_getElem?
+  intro i
+  simp [List.getElem?_mapIdx]
+
+theorem mark_eq (seq : List Char) (cov : List Bool) (pep : String) (h : cov.length = seq.length) :
+    mark cov (findSub pep.toList seq) pep.toList.length = cov.mapIdx (fun i b => b || covers seq pep i) := by
+  unfold mark covers
+  cases findSub pep.toList seq with
+  | some p => rfl
+  | none => simp only [h]
+
+theorem markAll_eq (seq : List Char) : ∀ (peps : List String) (cov : List Bool), cov.length = seq.length →
+    markAll seq cov peps = cov.mapIdx (fun i b => b || peps.any (fun p => covers seq p i)) := by
+  intro peps
+  induction peps with
+  | nil =>
+    intro cov _
+    simp only [markAll, List.foldl_nil, List.any_nil, Bool.or_false]
+    exact (mapIdx_id cov).symm
+  | cons p ps ih =>
+    intro cov h
+    have : markAll seq cov (p :: ps) = markAll seq (mark cov (findSub p.toList seq) p.toList.length) ps := rfl
+    rw [this, mark_eq seq cov p h, ih _ (by simp [h])]
+    apply List.ext_getElem?
+    intro i
+    simp only [List.getElem?_mapIdx, Option.map_map, List.any_cons]
+    cases cov[i]? with
+    | none => rfl
+    | some b => simp [Bool.or_assoc]
+
+theorem foldl_markAll_eq (seq : List Char) : ∀ (per : List (List String)) (cov : List Bool), cov.length = seq.length →
+    per.foldl (markAll seq) cov = cov.mapIdx (fun i b => b || per.flatten.any (fun p => covers seq p i)) := by
+  intro per
+  induction per with
+  | nil =>
+    intro cov _
+    simp only [List.foldl_nil, List.flatten_nil, List.any_nil, Bool.or_false]
+    exact (mapIdx_id cov).symm
+  | cons ps per ih =>
+    intro cov h
+    rw [List.foldl_cons, markAll_eq seq ps cov h, ih _ (by simp [h])]
+    apply List.ext_getElem?
+    intro i
+    simp only [List.getElem?_mapIdx, Option.map_map, List.flatten_cons, List.any_append]
+    cases cov[i]? with
+    | none => rfl
+    | some b => simp [Bool.or_assoc]
+
+theorem mapIdx_replicate_false (n : Nat) (f : Nat → Bool) :
+    (List.replicate n false).mapIdx (fun i b => b || f i) = (List.range n).map f := by
+  apply List.ext_getElem?
+  intro i
+  simp only [List.getElem?_mapIdx, List.getElem?_replicate, List.getElem?_map]
+  by_cases h : i < n
+  · simp [h]
+  · simp [h]
+
+/-- "sequence coverage": the three total cells are the fraction of the positions of the leading protein's sequence
+    marked by a stripped peptide of a used precursor of ANY experiment; the cell of experiment position `e` is the
+    fraction marked by the peptides of the used precursors of that experiment (0 without such a precursor) -/
+theorem coverageCols_eq (seqs : C09.SeqMap) (exps : List String) (c : Rat) (ids : List String) (quants : List C12.Row) :
+    coverageCols seqs exps c ids quants =
+      (let seq := (C09.lookupSeq seqs (ids.headD "").toList).getD []
+       let tot := coveredFraction seq ((List.range exps.length).flatMap (coveragePeps exps c quants))
+       [tot, tot, tot] ++ (List.range exps.length).map (fun e =>
+         if (coveragePeps exps c quants e).isEmpty then 0
+         else coveredFraction seq (coveragePeps exps c quants e))) := by
+  unfold coverageCols coveredFraction
+  simp only
+  rw [foldl_markAll_eq _ _ _ (by simp), mapIdx_replicate_false, List.flatMap_def]
+  congr 1
+  rw [List.map_map]
+  apply List.map_congr_left
+  intro e _
+  simp only [Function.comp]
+  split
+  · rfl
+  · rw [markAll_eq _ _ _ (by simp), mapIdx_replicate_false]
 
 end PgFdr.CliQuant
